@@ -107,7 +107,7 @@ func strFind(L *LState) int {
 		return 2
 	}
 	plain := false
-	if L.GetTop() == 4 {
+	if L.GetTop() >= 4 {
 		plain = LVAsBool(L.Get(4))
 	}
 
